@@ -260,11 +260,11 @@ RecvFilters(p, m) ==
                  /\ minF' = newF
                  /\ IxUnchanged
                  /\ IF limit = 0
-                    THEN UNCHANGED <<mdb, mmem>> /\ scripts' = IF mmem = {} THEN Raise(scripts, newF) ELSE scripts
+                    THEN UNCHANGED <<mdb, mmem>> /\ scripts' = IF mmem = {} /\ mdb = <<>> THEN Raise(scripts, newF) ELSE scripts
                     ELSE
                     \* the matched positions: a superset of `must` (Golomb filters have false positives)
                     \/ /\ mdb' = mdb /\ must = {}
-                       /\ scripts' = IF mmem = {} THEN Raise(scripts, newF) ELSE scripts
+                       /\ scripts' = IF mmem = {} /\ mdb = <<>> THEN Raise(scripts, newF) ELSE scripts
                        /\ UNCHANGED mmem
                     \/ /\ Len(mdb') = Len(mdb) + 1
                        /\ \E at \in 1..Len(mdb') :
@@ -510,7 +510,12 @@ CellsSound ==
         /\ OnCanon(world, ch, c[5], c[2], c[3])
         /\ c[4] < Len(TxOf(world, c[5]).outs)
         /\ c[1] \in OutScriptKeys(TxOf(world, c[5]).outs[c[4] + 1])
-        /\ <<c[5], c[4]>> \notin spent[c[1]]
+        /\ \/ <<c[5], c[4]>> \notin spent[c[1]]
+           \* KF-C03-stale-before-start: set_scripts moved the script to a later start number; cells indexed
+           \* earlier and spent in the skipped blocks (at or below the new start) stay in the index as live
+           \/ /\ "KF-C03-stale-before-start" \in cfg.allow
+              /\ c[1] \in DOMAIN startOf /\ <<c[5], c[4]>> \in SpentOn(world, ch, startOf[c[1]])
+              /\ (TLCGet(43) = 0 => TLCSet(43, 1) /\ PrintT(<<"KNOWN-FINDING", "KF-C03-stale-before-start", c, startOf[c[1]]>>))
 
 \* C04: history entries of registered scripts belong to the canonical chain
 HistOnCanon ==
